@@ -23,11 +23,16 @@ def run_property(prop, tier, repo, only=None, quiet=False, overrides=None, write
     seed = int(os.environ.get('VERIF_SEED', '0') or 0)
     errors = []
     model = Model(repo, overrides)
-    rule_ids = [r for r in PROPS[prop]['rules'] if r in RULES]
+    import re as _re
+    specs = [(r, None) if isinstance(r, str) else (r[0], _re.compile(r[1])) for r in PROPS[prop]['rules']]
+    specs = [(r, f) for r, f in specs if r in RULES]
     if tier == 'thorough':
-        rule_ids = rule_ids + [r for r in PROPS[prop].get('thorough_rules', []) if r in RULES and r not in rule_ids]
+        # thorough: every rule of the property armed on all of its obligations (no per-property construct filter)
+        specs = [(r, None) for r, f in specs]
     if only:
-        rule_ids = [r for r in rule_ids if r == only]
+        specs = [(r, f) for r, f in specs if r == only]
+    rule_ids = [r for r, f in specs]
+    filters = dict(specs)
     obls = []
     for rid in rule_ids:
         try:
@@ -43,6 +48,12 @@ def run_property(prop, tier, repo, only=None, quiet=False, overrides=None, write
         floor = RULES[rid][2]
         if len(got) < floor and not only:
             errors.append('%s: %d obligations found, below the hand-confirmed floor %d (rule would pass vacuously)' % (rid, len(got), floor))
+        flt = filters.get(rid)
+        if flt is not None:
+            kept = [o for o in got if flt.search('%s :: %s' % (o.func, o.construct))]
+            if not kept and got:
+                errors.append('%s: the construct filter of %s selects none of its %d obligations' % (rid, prop, len(got)))
+            got = kept
         obls.extend(got)
     known = report.load_known()
     known_hits, fresh = [], []
